@@ -19,28 +19,86 @@ RELAY = {PEER_FLAG_RELAY, PEER_FLAG_SPEED_TEST}
 EXIT_ALL = {PEER_FLAG_RELAY, PEER_FLAG_SPEED_TEST, PEER_FLAG_EXIT_BT, PEER_FLAG_EXIT_IPV8}
 EXIT_BT = {PEER_FLAG_RELAY, PEER_FLAG_SPEED_TEST, PEER_FLAG_EXIT_BT}
 
+CONFIG_ROUTES = ("attr", "kwargs", "service", "loader")
+
 BT_PAYLOAD = b"d1:ad2:id20:abcdefghij0123456789e1:q4:ping1:t2:aa1:y1:qe"   # bencoded dict: passes the DHT shape test
 
 
 class TunnelWorld(simnet.World):
     def __init__(self, seed_key: object, roles: dict[str, set], community_cls=TunnelCommunity, key_offset: int = 0,
-                 **settings) -> None:  # noqa: ANN001
+                 route: str = "attr", curves: dict[str, str] | None = None, **settings) -> None:  # noqa: ANN001
         """
         roles: node name -> peer flag set (insertion order fixes addresses n.n.n.n:100n and fixture key indices).
         settings: TunnelSettings attributes applied to every node (defaults are the library defaults).
+        route: how the settings reach the overlay - one of CONFIG_ROUTES:
+          attr     settings object, attributes assigned, overlay constructed (what the repository's tests do)
+          kwargs   settings_class(**settings)                      (the documented constructor form)
+          service  ipv8_service.IPv8(configuration) with the settings in the overlay's "initialize" section
+          loader   ipv8.loader.IPv8CommunityLoader with a CommunityLauncher whose get_kwargs returns the settings
+        curves: node name -> fixture curve of its identity key (default curve25519)
         """
         super().__init__(seed_key)
         self.ov: dict[str, TunnelCommunity] = {}
         for i, (name, flags) in enumerate(roles.items()):
-            node = self.add_node(name, key_offset + i)
-            s = community_cls.settings_class()
-            s.peer_flags = set(flags)
-            s.min_circuits = 0
-            s.max_circuits = 0
-            for k, v in settings.items():
-                setattr(s, k, v)
-            self.ov[name] = node.add_overlay(community_cls, s)
+            node = self.add_node(name, key_offset + i, curve=(curves or {}).get(name, "curve25519"))
+            conf = {"peer_flags": set(flags), "min_circuits": 0, "max_circuits": 0, **settings}
+            if route == "attr":
+                s = community_cls.settings_class()
+                for k, v in conf.items():
+                    setattr(s, k, v)
+                self.ov[name] = node.add_overlay(community_cls, s)
+            elif route == "kwargs":
+                self.ov[name] = node.add_overlay(community_cls, community_cls.settings_class(**conf))
+            elif route in ("service", "loader"):
+                self.ov[name] = node.run(self._make_via, route, node, community_cls, conf)
+            else:
+                raise ValueError(route)
         simnet.introduce(self, list(self.ov.values()))
+
+    @staticmethod
+    def _make_via(route: str, node, community_cls, conf: dict):  # noqa: ANN001, ANN205
+        """Construct the overlay the way a deployment does; then give it the node's address like Node.add_overlay."""
+        import base64  # noqa: PLC0415
+        from types import SimpleNamespace  # noqa: PLC0415
+
+        from . import fixtures  # noqa: PLC0415
+        if route == "service":
+            from ipv8_service import IPv8  # noqa: PLC0415
+            configuration = {
+                "logger": {"level": "CRITICAL"}, "walker_interval": 0.5,
+                "keys": [{"alias": "k", "file": "", "generation": "curve25519",
+                          "bin": base64.b64encode(fixtures.private_bin(node.key_index)).decode()}],
+                "overlays": [{"class": community_cls.__name__, "key": "k", "walkers": [], "bootstrappers": [],
+                              "initialize": dict(conf), "on_start": []}]}
+            ipv8 = IPv8(configuration, endpoint_override=node.endpoint,
+                        extra_communities={community_cls.__name__: community_cls})
+            o = ipv8.overlays[0]
+        else:
+            from ipv8.loader import CommunityLauncher, IPv8CommunityLoader  # noqa: PLC0415
+            from ipv8.peerdiscovery.network import Network  # noqa: PLC0415
+
+            class Launcher(CommunityLauncher):
+                def get_overlay_class(self):  # noqa: ANN202
+                    return community_cls
+
+                def get_my_peer(self, ipv8, session):  # noqa: ANN001, ANN202, ARG002
+                    return node.my_peer
+
+                def get_kwargs(self, session):  # noqa: ANN001, ANN202, ARG002
+                    return dict(conf)
+
+            ipv8 = SimpleNamespace(endpoint=node.endpoint, network=Network(), overlays=[], strategies=[])
+            loader = IPv8CommunityLoader()
+            loader.set_launcher(Launcher())
+            loader.load(ipv8, None)
+            o = ipv8.overlays[0]
+        o.my_peer.address = node.address
+        node.my_peer = o.my_peer
+        node.network = o.network
+        o.my_estimated_wan = node.address
+        o.my_estimated_lan = node.address
+        node.overlays.append(o)
+        return o
 
     # -- helpers ----------------------------------------------------------------------------------
     def peer_of(self, viewer: str, target: str):  # noqa: ANN201
